@@ -284,6 +284,22 @@ def run(ctx):
             r.ok("%s: %s after fresh store" % (sort.short, norm(c)))
         else:
             r.fail(sort, c, norm(c), "the sorted list is appended to without being reset first: listeners would be called twice")
+    # ... and every stored listener is carried over: the append is on every path of its iteration (no filter)
+    for c in appends:
+        loops = [a for a in _anc(c) if isinstance(a, (ast.For, ast.While))]
+        if not loops:
+            continue
+        inner = loops[0]
+        head = cfg.node_of(inner) if isinstance(inner, ast.For) else None
+        if head is None:
+            continue
+        body_start = [x for x in cfg.succs(head.id) if cfg.nodes[x].kind == "loop_body"]
+        tgt = {n.id for n in cfg.nodes_of(c)}
+        if body_start and all(cfg.all_paths_hit(b, tgt, [head.id]) for b in body_start):
+            r.ok("%s: %s on every path of its iteration" % (sort.short, norm(c)[:50]))
+        else:
+            r.fail(sort, c, norm(c) + " conditional", "a stored listener can be left out of the sorted list (the append is conditional): a registration that the filter rejects - the same or an equal "
+                   "callable registered a second time - never takes part in a dispatch")
     if not appends:
         for n, t in stores:
             if q.is_fresh_expr(n.value) or _local_fresh(sort, n.value):
@@ -357,6 +373,38 @@ def run(ctx):
                 r.ok("%s: %s" % (gl.short, norm(ret)))
             else:
                 r.fail(gl, ret, norm(ret), "the cached list can be returned without the cache entry having been (re)built")
+        elif v is not None and is_self_attr(v, CACHE):
+            # the whole cache is handed out: every event of the store that has no entry must have been rebuilt first
+            rn = cfg.node_of(ret)
+            loops = [n for n in cfg.nodes if n.kind == "for" and any(is_self_attr(x, STORE) for x in walk_no_nested(n.ast.iter))]
+            ok_ = False
+            why = "no loop over the listener store rebuilds the missing entries"
+            for lp_ in loops:
+                if not cfg.all_paths_hit(cfg.entry.id, {lp_.id}, [rn.id]):
+                    why = "the loop that rebuilds missing entries can be skipped as a whole (it is under a test of the cache)"
+                    continue
+                lv = {x.id for x in walk_no_nested(lp_.ast.target) if isinstance(x, ast.Name)}
+                sorts = [cn for cn in cfg.nodes if cn.kind == "stmt" and lp_.ast in list(_anc(cn.ast)) and any(
+                    isinstance(c, ast.Call) and isinstance(c.func, ast.Attribute) and c.func.attr in ("_sort_listeners", SORTER) and c.args and isinstance(c.args[0], ast.Name) and c.args[0].id in lv
+                    for c in walk_no_nested(cn.ast))]
+                if not sorts:
+                    why = "the loop over the store does not rebuild entries"
+                    continue
+                # inside the loop the only admissible guard is "<loop var> not in cache"
+                body_start = [x for x in cfg.succs(lp_.id) if cfg.nodes[x].kind == "loop_body"]
+                hit_edges = {e.id for e in cfg.nodes if e.kind in ("T", "F") and isinstance(e.ast, ast.Compare) and len(e.ast.ops) == 1 and is_self_attr(e.ast.comparators[0], CACHE)
+                             and isinstance(e.ast.left, ast.Name) and e.ast.left.id in lv
+                             and ((isinstance(e.ast.ops[0], ast.In) and e.kind == "T") or (isinstance(e.ast.ops[0], ast.NotIn) and e.kind == "F"))}
+                tgt = {x.id for x in sorts} | hit_edges
+                if body_start and all(cfg.all_paths_hit(b, tgt, [lp_.id]) for b in body_start):
+                    ok_ = True
+                    break
+                why = "an event without a cache entry can pass through the loop without being rebuilt"
+            if ok_:
+                r.ok("%s: %s after every missing entry was rebuilt" % (gl.short, norm(ret)))
+            else:
+                r.fail(gl, ret, norm(ret) + " (all events)", "get_listeners() hands out the whole cache although %s: events whose entry was dropped by a registration, or never built, "
+                       "are missing from the result" % why)
     # dispatch: listeners = self.get_listeners(event_name); self._do_dispatch(listeners, event_name, event)
     ev_param = q.param_names(dp)[0] if q.param_names(dp) else None
     for c in q.method_calls(dp, "get_listeners"):
@@ -404,6 +452,48 @@ def run(ctx):
             else:
                 r.ok("%s forwards %s" % (fi.short, ", ".join(x for x in q.param_names(add) if x in own)))
     if n_fac == 0:
+        r.vacuous_ok = True
+
+    # ---------------------------------------------------------------- R9
+    r = ctx.rule("C12-R9", "INVALID", "whether an event has listeners is asked when it is dispatched, never remembered: outside the dispatcher no "
+                 "object state is written from, or under a test of, has_listeners() - a listener registered later must take part in the next dispatch", reference=2)
+    n_q = 0
+    for fi in p.all_functions():
+        if fi.cls is disp.cls:
+            continue
+        hl = [c for c in q.calls(fi) if isinstance(c.func, ast.Attribute) and c.func.attr == "has_listeners"]
+        if not hl:
+            continue
+        cfg = ctx.cfg(fi)
+        for c in hl:
+            n_q += 1
+            bad = None
+            par = getattr(c, "_parent", None)
+            # stored directly
+            stmt = c
+            while stmt is not None and not isinstance(stmt, ast.stmt):
+                stmt = getattr(stmt, "_parent", None)
+            if isinstance(stmt, ast.Assign) and any(isinstance(t, ast.Attribute) for t in stmt.targets):
+                bad = stmt
+            # object state written under a test of it
+            if bad is None:
+                for cn in cfg.nodes_of(c):
+                    if cn.kind != "cond":
+                        continue
+                    for edge in (cfg.true_of(cn), cfg.false_of(cn)):
+                        if edge is None:
+                            continue
+                        for w in cfg.nodes:
+                            if w.kind == "stmt" and isinstance(w.ast, (ast.Assign, ast.AugAssign)) and cfg.dominates(edge.id, w.id):
+                                tg = w.ast.targets if isinstance(w.ast, ast.Assign) else [w.ast.target]
+                                if any(is_self_attr(t) for t in tg):
+                                    bad = w.ast
+            if bad is not None:
+                r.fail(fi, bad, norm(bad) + " depends on has_listeners()", "%s writes object state (%s) that depends on whether listeners were registered at that moment: "
+                       "a listener added afterwards is never dispatched to by this object" % (fi.short, norm(bad)))
+            else:
+                r.ok("%s: %s asked at dispatch time, not stored" % (fi.short, norm(c)[:60]))
+    if n_q == 0:
         r.vacuous_ok = True
     return ctx.results
 
@@ -462,3 +552,10 @@ def _sort_polarity(call):
         if nm == "itemgetter" and len(key.args) == 1 and isinstance(key.args[0], ast.Constant) and key.args[0].value == 0:
             return "desc0" if rev_val else "ascending"
     return None
+
+
+def _anc(n):
+    p = getattr(n, "_parent", None)
+    while p is not None:
+        yield p
+        p = getattr(p, "_parent", None)
